@@ -1513,10 +1513,10 @@ func TestVerif_C10(t *testing.T) {
 	start := time.Now()
 	vfContinueAfterPanic = true
 	env := vfGetEnv("C10")
-	nCluster := env.N(160, 4000)
-	nClock := env.N(300, 8000)
-	nConn := env.N(600, 15000)
-	nState := env.N(4000, 100000)
+	nCluster := env.N(480, 12000)
+	nClock := env.N(600, 15000)
+	nConn := env.N(1500, 40000)
+	nState := env.N(10000, 250000)
 	n := nCluster + nClock + nConn + nState
 	runCase := func(part *vfPart, i int) {
 		switch {
